@@ -624,10 +624,13 @@ def atomic_class(string: str) -> Optional[int]:
 
     digits = string.split(":")[1]
 
+    if len(digits) == 0 or not all(d in "0123456789" for d in digits):
+        raise InvalidSmilesString("Atom class must be an integer")
+
     try:
         return int(digits)
 
-    except ValueError:
+    except ValueError:  # e.g. more digits than int() converts
         raise InvalidSmilesString("")
 
 
